@@ -65,3 +65,8 @@ claim("C02", "other",
   "The pair matcher is inlined into one propositional formula over canonical atoms and decided by exhaustive truth tables: role gates (M1), exception gate and its meaning (M2), symmetry under exchange of the two terms (M3), reflexivity (M4); suffix arithmetic (M5) and the +/no+ cell structure with the direction of 'later' (M6/T7) structurally; the family table the position atoms read is checked exhaustively (T1-T4) together with its readers (T5, T6, T8).",
   "Atoms (string equalities, position comparisons) are treated as independent propositions apart from the identities x==x, EqualFold(x,x), not(x>x); per-pair outcomes over the ~670 ids are value-level and follow only through the table rules. Known finding T2 (MPL-1.0/MPL-1.1) applies.",
   "symbolic inlining to a propositional formula + exhaustive truth tables + table lint", "DESIGN.md section 3 C02")
+
+claim("C08", "other",
+  "The scanner's id-normalisation plan is extracted from the SSA on every run and interpreted over the extracted tables (a finite evaluation of constants, nothing under /repo is executed): for every active id all four spellings are valid (Q1), for every listed id both spelling pairs denote interchangeable nodes (Q2: equal plus flag and equal id or same family and version group), the family lookup strips exactly the suffix the scanner rewrites (Q3). Exhaustive over all ~670 listed ids.",
+  "An unrecognised argument transform or guard in normalizeLicense makes the plan undecided (reported as a violation). Interchangeability inside arbitrary expressions relies on expansion and matching seeing only nodes (C01 X5, C07 W1, C02).",
+  "decision-list extraction from SSA + exhaustive evaluation over constant tables", "DESIGN.md section 3 C08")
